@@ -20,6 +20,7 @@ F_SC = "compiler/spinchaincompiler.py"
 F_GC = "compiler/gatecompiler.py"
 F_DEV = "device/spinchain.py"
 F_PROC = "device/processor.py"
+F_MP = "device/modelprocessor.py"
 
 
 def _parse(rel):
@@ -511,7 +512,39 @@ def _tr_processor():
     return dict(appends_phase=appended)
 
 
+def _tr_modelprocessor():
+    """ModelProcessor.load_circuit: is the no-instruction result (None, None) of compile turned into empty tables
+    before set_coeffs?  Only this statement is classified here (the rest of the function belongs to C13's translator);
+    any OTHER test of tlist/coeffs against None is refused."""
+    where = F_MP + ":ModelProcessor.load_circuit"
+    fn = _fn(_cls(_parse(F_MP), F_MP, "ModelProcessor"), F_MP, "load_circuit")
+    st = _stmts(fn)
+    texts = [u(x) for x in st]
+    if "self.set_coeffs(coeffs)" not in texts or "self.set_tlist(tlist)" not in texts:
+        raise Broken("translator:" + where, "set_coeffs / set_tlist statements not found")
+    k = texts.index("self.set_coeffs(coeffs)")
+    accepts = False
+    for i, x in enumerate(st):
+        if isinstance(x, ast.If) and ("coeffsisNone" in u(x.test) or "tlistisNone" in u(x.test)):
+            ok = (u(x.test) in ("tlistisNoneandcoeffsisNone", "coeffsisNoneandtlistisNone", "coeffsisNone")
+                  and len(x.body) == 1 and not x.orelse
+                  and u(x.body[0]) in ("tlist,coeffs=({},{})", "(tlist,coeffs)=({},{})", "tlist,coeffs={},{}"))
+            if not ok or i > k:
+                raise Broken("translator:" + where, "unrecognised handling of an empty compilation result: " + u(x)[:120])
+            accepts = True
+    # run_analytically must then cope with a processor without pulses
+    fn = _fn(_cls(_parse(F_PROC), F_PROC, "Processor"), F_PROC, "run_analytically")
+    runs_empty = False
+    body = _stmts(fn)
+    for i, x in enumerate(body):
+        if isinstance(x, ast.If) and u(x.test) == "tlistisNone" and len(x.body) == 1 and u(x.body[0]) == "tlist=[]" \
+                and i > 0 and u(body[i - 1]) == "tlist=self.get_full_tlist()":
+            runs_empty = True
+    return dict(accepts_empty=accepts, runs_empty=runs_empty)
+
+
 def generate():
+    mp = _tr_modelprocessor()
     comp = _tr_compiler()
     dev = _tr_model()
     proc = _tr_processor()
@@ -546,11 +579,15 @@ def generate():
         f"Definition load_fresh_compiler : bool := {b(dev['fresh'])}.",
         f"Definition load_reports_phase : bool := {b(dev['reports'])}.",
         f"Definition run_appends_phase : bool := {b(proc['appends_phase'])}.",
+        "(* ModelProcessor.load_circuit turns the no-instruction result (None, None) of compile into empty tables;",
+        "   Processor.run_analytically accepts a processor without pulses *)",
+        f"Definition load_accepts_empty : bool := {b(mp['accepts_empty'])}.",
+        f"Definition run_accepts_no_pulse : bool := {b(mp['runs_empty'])}.",
         "",
     ]
     text = "\n".join(lines)
     write_if_changed(os.path.join(COQ, "Gen", "SpinChain.v"), text)
-    return dict(comp=comp, dev=dev, proc=proc, text=text)
+    return dict(comp=comp, dev=dev, proc=proc, mp=mp, text=text)
 
 
 if __name__ == "__main__":
